@@ -941,7 +941,14 @@ def inject_fault(sb, kind, rng, arg=None):
     if kind == "garbage":
         open(f, "wb").write(rng.bytes(rng.range(1, 400)))
         return "garbage"
-    j = json.loads(orig)
+    try:
+        j = json.loads(orig)
+    except ValueError:  # (UnicodeDecodeError is one)
+        # the archive is already damaged (an earlier fault of the same history, with no completed run in between):
+        # kinds that rewrite fields of the JSON do not apply to it; the only-* kinds move the bytes as they are
+        j = None
+        if not kind.startswith("only-"):
+            return None
     if kind == "json-empty-object":
         open(f, "w").write("{}")
     elif kind == "json-array":
